@@ -16,7 +16,8 @@ class CheckComparisons(MultiFunction):
     Terminals that are real are RealValue, Zero, and Argument
     (even in complex FEM, the basis functions are real)
     Operations that produce reals are Abs, Real, Imag.
-    Terminals default to complex, and Sqrt, Pow (defensively) imply complex.
+    Terminals default to complex, and Sqrt, Ln, Acos, Asin, Bessel functions
+    and Pow (defensively) imply complex.
     Otherwise, operators preserve the type of their operands.
     """
 
@@ -97,6 +98,14 @@ class CheckComparisons(MultiFunction):
         o = self.reuse_if_untouched(o, *ops)
         self.nodetype[o] = "complex"
         return o
+
+    # Functions that leave the reals outside their real domain (like sqrt):
+    # ln(x) for x < 0, acos(x) and asin(x) for |x| > 1, Bessel functions of
+    # negative arguments
+    ln = sqrt
+    acos = sqrt
+    asin = sqrt
+    bessel_function = sqrt
 
     def power(self, o, base, exponent):
         """Apply to power."""
